@@ -1,4 +1,4 @@
-CONSTANTS MaxArgs = 1 Rich = FALSE Product = TRUE
+CONSTANTS MaxArgs = 2 Rich = FALSE Product = TRUE
 SPECIFICATION Spec
 INVARIANTS Immaterial CanonSplitsExactly CommentCut
 CHECK_DEADLOCK FALSE
